@@ -68,6 +68,8 @@ def gen_cfg(rng, i):
                 names=(['tx_id', 'end_tx_id', 'op_type'] if custom else ['transaction_id', 'end_transaction_id', 'operation_type']),
                 names_level=names_level,
                 table_fmt=rng.choice(['%s_version', '%s_version', '%s_history', 'v_%s']),
+                # the table-name format given in the class's own __versioned__ (the manager keeps its default)
+                table_level=('class' if inherit != 'assoc' and rng.random() < 0.25 else 'manager'),
                 schema=rng.choice([None, None, 'other']),
                 # a default schema on the MetaData ('main' is SQLite's own name for the primary database); a table-level
                 # schema overrides it, and the version table follows the PARENT TABLE
@@ -127,6 +129,8 @@ def make_build(cfg):
         vo['include'] = list(cfg['include'])
         if cfg['names_level'] == 'class':
             vo['transaction_column_name'], vo['end_transaction_column_name'], vo['operation_type_column_name'] = cfg['names']
+        if cfg.get('table_level') == 'class':
+            vo['table_name'] = cfg['table_fmt']
         targs = {'schema': cfg['schema']} if cfg['schema'] else {}
         if cfg['inherit'] == 'flat':
             attrs = {'__tablename__': 'm', '__versioned__': vo, '__table_args__': targs}
@@ -219,7 +223,9 @@ def effective_cols(cfg):
 def _observe(cfg):
     import sqlalchemy as sa
     from sqlalchemy_continuum.plugins import PropertyModTrackerPlugin
-    opts = {'strategy': cfg['strategy'], 'table_name': cfg['table_fmt']}
+    opts = {'strategy': cfg['strategy']}
+    if cfg.get('table_level') != 'class':
+        opts['table_name'] = cfg['table_fmt']
     if cfg['names_level'] == 'manager':
         opts['transaction_column_name'], opts['end_transaction_column_name'], opts['operation_type_column_name'] = cfg['names']
     plugins = [PropertyModTrackerPlugin()] if cfg['tracker'] else []
@@ -358,7 +364,7 @@ def nontrivial(case, obs):
 def features(case, obs):
     cfg = case['cfg']
     f = ['inherit=' + cfg['inherit'], 'strategy=' + cfg['strategy'], 'names=' + cfg['names_level'] + ':' + cfg['names'][0],
-         'fmt=' + cfg['table_fmt'], 'schema=%s' % cfg['schema'], 'meta_schema=%s' % cfg.get('meta_schema'), 'tracker=%s' % cfg['tracker']]
+         'fmt=' + cfg['table_fmt'], 'table_level=%s' % cfg.get('table_level'), 'schema=%s' % cfg['schema'], 'meta_schema=%s' % cfg.get('meta_schema'), 'tracker=%s' % cfg['tracker']]
     if obs['exc']:
         f.append('exception:' + obs['exc'].split(':')[0])
     return f
